@@ -7,9 +7,9 @@ import (
 	"time"
 
 	"github.com/tidwall/geojson"
-	"github.com/tidwall/geojson/geo"
 	"github.com/tidwall/geojson/geometry"
 	"github.com/tidwall/gjson"
+	"github.com/tidwall/tile38/internal/collection"
 	"github.com/tidwall/tile38/internal/field"
 	"github.com/tidwall/tile38/internal/glob"
 	"github.com/tidwall/tile38/internal/object"
@@ -398,13 +398,11 @@ func fenceMatchNearbys(
 	if col == nil {
 		return nil
 	}
-	center := obj.Geo().Center()
-	minLat, minLon, maxLat, maxLon :=
-		geo.RectFromCenter(center.Y, center.X, fence.roam.meters)
-	rect := geometry.Rect{
-		Min: geometry.Point{X: minLon, Y: minLat},
-		Max: geometry.Point{X: maxLon, Y: maxLat},
-	}
+	// The candidates come from the box NEARBY searches for the same point and
+	// radius. geo.RectFromCenter is too narrow for radii of a few metres and
+	// collapses to the centre below 0.3 m.
+	rect := collection.SearchRect(geojson.NewCircle(
+		obj.Geo().Center(), fence.roam.meters, defaultCircleSteps))
 	col.Intersects(geojson.NewRect(rect), 0, nil, nil,
 		func(o *object.Object) bool {
 			var idMatch bool
